@@ -51,7 +51,12 @@ def cases(tier, seed):
             yield {"groups": [ga, gb], "configs": "small", "seed": seed, "tier": tier}
         for tri in itertools.combinations_with_replacement(G2, 3):
             yield {"groups": list(tri), "configs": "small3", "seed": seed, "tier": tier}
+        # near-ties: distinct scores 2e-6 apart must be treated as distinct thresholds
+        for ga, gb in itertools.combinations_with_replacement(G2 + G3[::4], 2):
+            yield {"groups": [ga, gb], "configs": "small", "seed": seed, "tier": tier, "near": True}
     else:
+        for ga, gb in itertools.combinations_with_replacement(G23, 2):
+            yield {"groups": [ga, gb], "configs": "small3", "seed": seed, "tier": tier, "near": True}
         for ga, gb in itertools.combinations_with_replacement(G23, 2):
             yield {"groups": [ga, gb], "configs": "full", "seed": seed, "tier": tier}
         for tri in itertools.combinations_with_replacement(G2, 3):
@@ -93,6 +98,8 @@ def bounds(tier, seed):
 
 def dataset(case):
     pal = SCORE_PALETTES[case["seed"] % 4]
+    if case.get("near"):
+        pal = (pal[0], pal[0] + 2e-6 * max(1.0, abs(pal[0])), pal[2])
     if case.get("levels") == 4:
         pal = tuple(pal) + (pal[2] + (pal[2] - pal[1]) * 0.5,)
     y, s, a = [], [], []
@@ -130,6 +137,8 @@ def run_case(case, which):
             out["classes"].add("all_scores_equal_in_group")
     if len(labels) >= 3:
         out["classes"].add("three_or_more_groups")
+    if case.get("near"):
+        out["classes"].add("near_tie_scores")
     est = prefit_score()
     outcome = []
     pts_cache = {}
